@@ -356,15 +356,15 @@ V("C10", "reader-skips-bad-records", "fire", (RR, """            codebase.add_fi
 SCN = "codelimit/common/Scanner.py"
 UT = "codelimit/utils.py"
 V("C09", "reuse-without-checksum", "fire", (SCN, "    if cached_entry and cached_entry.checksum() == checksum:", "    if cached_entry:"),
-  "modified file keeps its old measurements", "reuse-unguarded")
+  "modified file keeps its old measurements", "rule=R")
 V("C09", "reuse-checksum-self", "fire", (SCN, "    if cached_entry and cached_entry.checksum() == checksum:", "    if cached_entry and cached_entry.checksum() == cached_entry.checksum():"),
-  "guard compares the cache with itself", "reuse-unguarded")
+  "guard compares the cache with itself", "rule=R")
 V("C09", "lookup-by-basename", "fire", (SCN, "            cached_entry = cached_report.codebase.files[rel_path]", "            cached_entry = cached_report.codebase.files[os.path.basename(path)]"),
-  "entry of another directory's file with the same name", "lookup-key")
+  "entry of another directory's file with the same name", "rule=R")
 V("C09", "version-guard-removed", "fire", (SCANCMD, "        if cached_report and cached_report.version == Report.VERSION:", "        if cached_report:"),
-  "cache of any version reused", "no-version-guard")
+  "cache of any version reused", "rule=R")
 V("C09", "version-not-restored", "fire", (RR, "        report.version = d[\"version\"] if \"version\" in d else None\n", ""),
-  "pre-fix: guard compares the running version with itself", "version-guard-ineffective")
+  "pre-fix: guard compares the running version with itself", "rule=R")
 V("C09", "version-guard-on-document-silent", "silent", (SCANCMD, """        try:
             cached_report = ReportReader.from_json(report_path.read_text())
         except Exception:
